@@ -4,6 +4,7 @@
 package c12
 
 import (
+	"bytes"
 	"context"
 	"encoding/binary"
 	"fmt"
@@ -40,12 +41,14 @@ func init() {
 				return map[string]interface{}{"seed": fw.GetU64(p[0]), "style": p[1][0]}
 			case "score":
 				return map[string]interface{}{"msg": fw.Hex(p[0])}
+			case "reuse":
+				return map[string]interface{}{"seed": fw.GetU64(p[0]), "scenario": "six consecutive Mine calls on one Worker, message kept in one buffer edited in place between the calls"}
 			case "shared":
 				return map[string]interface{}{"seed": fw.GetU64(p[0]), "scenario": "two demanding and one looping easy Mine call run concurrently on one *Worker"}
 			}
 			return map[string]interface{}{"data": fw.Hex(p[0]), "target": fw.GetU64(p[1]), "workers": p[2][0]}
 		},
-		Required:      []string{"lane returned<64 sound", "lane returned 64 and nothing passed over", "lane reached big-int stage", "toint ok", "score ok", "mine ok", "shared-worker executions", "mine blocks scanned", "lane: candidate with difficulty == lx"},
+		Required:      []string{"lane returned<64 sound", "lane returned 64 and nothing passed over", "lane reached big-int stage", "toint ok", "score ok", "mine ok", "reuse executions", "shared-worker executions", "mine blocks scanned", "lane: candidate with difficulty == lx"},
 		WatchdogQuick: 900,
 	})
 }
@@ -138,6 +141,8 @@ func judge(class string, key []byte, o *fw.Obs) {
 		o.Count("toint ok")
 	case "shared":
 		judgeShared(fw.GetU64(p[0]), o)
+	case "reuse":
+		judgeReuse(fw.GetU64(p[0]), o)
 	case "score":
 		msg := p[0]
 		o.Nontrivial()
@@ -319,6 +324,56 @@ func judgeLane(seed uint64, dataLen int, t uint64, o *fw.Obs) {
 		return
 	}
 	o.Count("lane returned 64 and nothing passed over")
+}
+
+// judgeReuse: one long-lived *Worker, message kept in ONE buffer edited in place between the calls.
+func judgeReuse(seed uint64, o *fw.Obs) {
+	o.Nontrivial()
+	r := fw.SubRng(int64(seed), "c12-reuse")
+	w := powv2.New(1 + r.Intn(4))
+	buf := make([]byte, 1+r.Intn(80))
+	r.Read(buf)
+	ctx, cancel := context.WithTimeout(context.Background(), 300*time.Second)
+	defer cancel()
+	for step := 0; step < 6; step++ {
+		switch r.Intn(4) {
+		case 0:
+		case 1:
+			buf[r.Intn(len(buf))] ^= byte(1 + r.Intn(255))
+		default:
+			r.Read(buf)
+		}
+		snapshot := append([]byte(nil), buf...)
+		t := uint64(20+r.Intn(2000)) / uint64(len(buf)+8)
+		if t == 0 {
+			t = 1
+		}
+		var nonce uint64
+		var err error
+		if !o.Try("Mine", func() { nonce, err = w.Mine(ctx, buf, t) }) {
+			return
+		}
+		if err != nil {
+			if ctx.Err() != nil {
+				o.Inconclusive("v2 Mine on a reused Worker did not return within 300 s")
+				return
+			}
+			o.Fail("error", "Mine on a reused Worker returned %v", err)
+			return
+		}
+		if !bytes.Equal(buf, snapshot) {
+			o.Fail("mutation", "Mine modified the caller's data")
+			return
+		}
+		msg := append(append([]byte(nil), snapshot...), make([]byte, 8)...)
+		binary.LittleEndian.PutUint64(msg[len(snapshot):], nonce)
+		if ms := modelScore(msg); ms < t {
+			o.Fail("unsound", "call %d on one Worker with the message kept in one buffer that is edited in place between calls: Mine(%x, target=%d) returned nonce %d with score %d below the target", step+1, snapshot, t, nonce, ms)
+			return
+		}
+		o.Count("reuse: calls on a long-lived Worker checked")
+	}
+	o.Count("reuse executions")
 }
 
 // judgeShared: several goroutines mine concurrently on ONE *Worker with different data and targets
@@ -527,6 +582,9 @@ func gen(g *fw.Gen) {
 	}
 	for n := g.ShareOf(64, 3000); n > 0; n-- {
 		g.Emit("shared", fw.Pack(fw.U64(g.Rng.Uint64())))
+	}
+	for n := g.ShareOf(200, 10000); n > 0; n-- {
+		g.Emit("reuse", fw.Pack(fw.U64(g.Rng.Uint64())))
 	}
 	// API level
 	for n := g.ShareOf(250, 12000); n > 0; n-- {
